@@ -173,6 +173,12 @@ Theorem C15_window_new_bucket_covers_sample : forall dur reftime now, 0 < dur ->
   next_begin dur reftime now <= now /\ now < next_begin dur reftime now + dur.
 Proof. exact next_begin_covers. Qed.
 
+(* quantile labels (Quantile::new; the Display renderings are oracle inputs): "min", "max" or "p..."; never a dot *)
+Theorem C15_quantile_label_shape : forall fc fd,
+  ~ In 46 (qlabel fc fd)
+  /\ (qlabel fc fd = [109; 105; 110] \/ qlabel fc fd = [109; 97; 120] \/ exists r, qlabel fc fd = 112 :: r).
+Proof. exact (fun fc fd => conj (qlabel_no_dot fc fd) (qlabel_cases fc fd)). Qed.
+
 (* the order hypotheses are satisfiable (integers with a NaN-like element) on a non-trivial case *)
 Theorem C15_hypotheses_satisfiable :
   (forall a b c : F ZO, fle ZO a b = true -> fle ZO b c = true -> fle ZO a c = true)
